@@ -585,6 +585,10 @@ def run(chk):
     check_append_only(chk, tu)
     check_insertion(chk, tu)
     check_who_releases(chk, tu)
+    # R13.9: the number handed to the guest by path_open is the number the table issued (rule shared with C12 R12.2)
+    from . import c12 as _c12
+    _c12.check_path_open_result(chk, tu, 'R13.9')
+    chk.floor('R13.9', 2)
     chk.floor('R13.7', 1)
     check_descriptor_sequences(chk, tu)
     chk.floor('R13.6', 1)
